@@ -283,7 +283,13 @@ func (s SchemaComponent) Render() (string, error) {
 
 		IsWriteJSONFuncOneOf bool
 		OneOfStructure       OneOfStructure
+
+		RefJSONMethods string
+		RefIsObject    bool
 	}{
+		RefJSONMethods: s.refJSONMethods(),
+		RefIsObject:    s.Schema.Ref != nil && s.Schema.Kind() == SchemaKindObject,
+
 		Schema: s.Schema,
 
 		Name:        s.Name,
@@ -306,6 +312,30 @@ func (s SchemaComponent) Render() (string, error) {
 		IsWriteJSONFuncOneOf: s.IsWriteJSONFuncOneOf,
 		OneOfStructure:       s.OneOfStructure,
 	})
+}
+
+// refJSONMethods returns the name of the component this one is a reference to
+// when that component's Go type has JSON methods of its own: the type defined
+// here (`type Name Ref`) does not inherit them and has to delegate.
+func (s SchemaComponent) refJSONMethods() string {
+	if s.Schema.Ref == nil || !s.Schema.Ref.hasJSONMethods(0) {
+		return ""
+	}
+	return s.Schema.Ref.Name
+}
+
+func (s SchemaComponent) hasJSONMethods(depth int) bool {
+	if s.Schema.Ref != nil {
+		return depth < 64 && s.Schema.Ref.hasJSONMethods(depth+1)
+	}
+	if s.IsWriteJSONFunc || s.IsWriteJSONFuncArray || s.IsWriteJSONFuncOneOf {
+		return true
+	}
+	if s.IsRenderFormatMethod && s.RenderBaseGoTypeFn != nil {
+		tp, err := s.RenderBaseGoTypeFn()
+		return err == nil && tp == "time.Time"
+	}
+	return false
 }
 
 type HeaderComponent struct {
